@@ -108,7 +108,14 @@ def runHyp (c : Case) : String :=
     if id == 0 && e != l then 0 else normSq (trv l * tbl id e l - trv l)))))
   let conjR := maxR (ids.flatMap (fun id => idx.flatMap (fun e => idx.map (fun l =>
     if id == 0 && e != l then 0 else normSq (star (tbl id (sw e) (sw l)) - tbl id e l)))))
-  s!"tp {showRat tp} herm {showRat herm} unit {showRat unitR} conj {showRat conjR}"
+  -- hypotheses of Props.C02.pt_prefix: the closing weight sums to one and sits on unit factors
+  let dQ : QI := QI.ofRat (1 / (d : Rat))
+  let trIn : Nat → QI := fun a => trv a * dQ
+  let t : Nat → QI := fun a => closeWeight L (tab2 L c.uin) (tab2 L c.uout) trIn trv a
+  let closeSum := normSq ((idx.map t).foldl (· + ·) 0 - 1)
+  let closeUnit := maxR (ids.flatMap (fun id => idx.flatMap (fun e => idx.map (fun l =>
+    if id == 0 && e != l then 0 else normSq (t l * tbl id e l - t l)))))
+  s!"tp {showRat tp} herm {showRat herm} unit {showRat unitR} conj {showRat conjR} closesum {showRat closeSum} closeunit {showRat closeUnit}"
 
 def runPtInfl (c : Case) : String :=
   let L := c.L
